@@ -1399,7 +1399,13 @@ Proof.
       pose proof (lock_fresh w2 s t tip Hf2) as [Hf3 Hle3];
       assert (Hle2 : child_le w w2) by (intros a; cbn; apply Hle);
       destruct (lock w2 s t tip) as [w3 [[]|e|q]] end; cbn [fst] in *;
-      (split; [exact Hf3|eapply child_le_trans; eauto]). }
+      try (split; [exact Hf3|eapply child_le_trans; eauto]).
+    (* refused: the late-locked context is stored again *)
+    split; [|intros a; cbn; eapply child_le_trans; eauto].
+    apply save_ctx_fresh; [exact Hf3|].
+    intros k m v Hk. destruct Hf as [_ Hfc].
+    eapply key_below_mono; [eapply child_le_trans; eauto|].
+    eapply Hfc; [apply (get_ctx_in _ _ _ Ec)|exact Hk]. }
   destruct late_result as [w' [c'|e|q]]; cbn [fst] in *; try exact Hlate.
   destruct Hlate as [Hf' Hle'].
   destruct (negb co); cbn [fst]; [split; assumption|].
